@@ -5,6 +5,7 @@
   and the second differ only by exchanging neighbouring operations on disjoint registers (`SwapEquiv`).
 -/
 import GraphiqModel.Proofs.CompareRepairInit
+import Mathlib.Data.Fintype.Card
 namespace Graphiq.Compare
 open Graphiq Graphiq.Export
 
@@ -174,5 +175,160 @@ theorem op_of_roles (π : Wire → Wire) (o1 o2 : Op) (hm : nodeMatch (.gate o1)
     | wrap _ _ => simp [nodeMatch] at hm
     | ctrl _ _ _ => simp [nodeMatch, Op.cls] at hm
     | cctrl _ _ _ _ => simp [nodeMatch, Op.cls] at hm
+
+/-! ## from the node bijection to the operation sequences -/
+
+/-- a labelled circuit DAG together with the operation list it represents -/
+structure CircRep (g : MG) (W : List Wire) (l : List Op) (body : Wire → List Nd) : Prop where
+  rep : Rep g W body
+  ops : ∀ w ∈ W, wireOps g body w = l.filter (touches w)
+  complete : ∀ w ∈ W, ∀ n ∈ body w, ∀ o, g.opOf n = some (.gate o) → ∀ w' ∈ opWires o, w' ∈ W ∧ n ∈ body w'
+  count : g.nodes.length = 2 * W.length + l.length
+
+theorem BuildInv.circRep {W : List Wire} {g : MG} {l : List Op} (h : BuildInv W g l) :
+    ∃ body, CircRep g.addControlTarget2 W l body := by
+  obtain ⟨body, r, _, _, hops, hcomp, hcount⟩ := h
+  refine ⟨body, ⟨r.addControlTarget2, ?_, ?_, ?_⟩⟩
+  · rw [addControlTarget2_eq g W body r]; exact hops
+  · rw [addControlTarget2_eq g W body r]; exact hcomp
+  · rw [addControlTarget2_eq g W body r]; exact hcount
+
+/-- **the operations on register `π w` of the second circuit are the renamed operations on register `w` of the first** -/
+theorem iso2_ops (g1 g2 : MG) (W1 W2 : List Wire) (l1 l2 : List Op) (B1 B2 : Wire → List Nd)
+    (c1 : CircRep g1 W1 l1 B1) (c2 : CircRep g2 W2 l2 B2) (φ : Nd → Nd) (hf : IsoFacts2 g1 g2 φ) (w : Wire) (hw : w ∈ W1) :
+    l2.filter (touches (wireMap φ w)) = (l1.filter (touches w)).map (renOp (wireMap φ)) := by
+  obtain ⟨hw2, _, _, _, hb, _⟩ := iso2_wires g1 g2 W1 W2 B1 B2 c1.rep c2.rep φ hf w hw
+  rw [← c2.ops _ hw2, ← c1.ops w hw]
+  unfold wireOps
+  rw [hb, List.filterMap_map, List.map_filterMap]
+  apply List.filterMap_congr
+  intro n hn
+  obtain ⟨id, o1, _, ho1, _⟩ := c1.rep.bodyOp w hw n hn
+  obtain ⟨a, b, ha, hb2, hab⟩ := hf.nodes n (opOf_some_mem g1 n _ ho1)
+  rw [ho1] at ha
+  injection ha with ha
+  subst ha
+  obtain ⟨o2, rfl⟩ := nodeMatch_gate o1 b hab
+  have h1 : gateAt g1 n = some o1 := by unfold gateAt; rw [ho1]
+  have h2 : gateAt g2 (φ n) = some o2 := by unfold gateAt; rw [hb2]
+  simp only [Function.comp, h1, h2, Option.map_some]
+  congr 1
+  apply op_of_roles (wireMap φ) o1 o2 hab (c1.rep.wiresNodup n o1 ho1)
+  intro w' hw'
+  obtain ⟨hw'W, hnw'⟩ := c1.complete w hw n hn o1 ho1 w' hw'
+  obtain ⟨hw2', ht', _, _, hb', hr'⟩ := iso2_wires g1 g2 W1 W2 B1 B2 c1.rep c2.rep φ hf w' hw'W
+  have hφn : φ n ∈ B2 (wireMap φ w') := by rw [hb']; exact List.mem_map_of_mem hnw'
+  obtain ⟨_, o2', _, ho2', hin⟩ := c2.rep.bodyOp _ hw2' _ hφn
+  rw [hb2] at ho2'
+  injection ho2' with ho2'
+  injection ho2' with ho2'
+  subst ho2'
+  refine ⟨hin, ht', ?_⟩
+  have := hr' n hnw'
+  rw [hb2, ho1] at this
+  exact this
+
+/-! ## register counts -/
+
+theorem typed_count (t : RT) (n1 n2 : Nat) (π : Wire → Wire) (h1 : ∀ i, i < n1 → ∃ j, j < n2 ∧ π ⟨t, i⟩ = ⟨t, j⟩)
+    (hinj : ∀ i, i < n1 → ∀ i', i' < n1 → π ⟨t, i⟩ = π ⟨t, i'⟩ → i = i')
+    (hsurj : ∀ j, j < n2 → ∃ i, i < n1 ∧ π ⟨t, i⟩ = ⟨t, j⟩) : n1 = n2 := by
+  let f : Fin n1 → Fin n2 := fun i => ⟨Classical.choose (h1 i.1 i.2), (Classical.choose_spec (h1 i.1 i.2)).1⟩
+  have hfs : ∀ i : Fin n1, π ⟨t, i.1⟩ = ⟨t, (f i).1⟩ := fun i => (Classical.choose_spec (h1 i.1 i.2)).2
+  have hbij : Function.Bijective f := by
+    constructor
+    · intro a b hab
+      have : π ⟨t, a.1⟩ = π ⟨t, b.1⟩ := by rw [hfs a, hfs b, hab]
+      exact Fin.ext (hinj a.1 a.2 b.1 b.2 this)
+    · intro j
+      obtain ⟨i, hi, hπ⟩ := hsurj j.1 j.2
+      refine ⟨⟨i, hi⟩, Fin.ext ?_⟩
+      have := hfs ⟨i, hi⟩
+      rw [hπ] at this
+      injection this with _ h
+      exact h.symm
+  have := Fintype.card_of_bijective hbij
+  simpa using this
+
+theorem mem_wiresN_mk (ne np nc : Nat) (t : RT) (i : Nat) :
+    (⟨t, i⟩ : Wire) ∈ wiresN ne np nc ↔ i < (match t with | .e => ne | .p => np | .c => nc) := mem_wiresN ne np nc ⟨t, i⟩
+
+theorem counts_eq (ne1 np1 nc1 ne2 np2 nc2 : Nat) (π : Wire → Wire)
+    (hinto : ∀ w ∈ wiresN ne1 np1 nc1, π w ∈ wiresN ne2 np2 nc2 ∧ (π w).t = w.t)
+    (hinj : ∀ w ∈ wiresN ne1 np1 nc1, ∀ w' ∈ wiresN ne1 np1 nc1, π w = π w' → w = w')
+    (hsurj : ∀ w2 ∈ wiresN ne2 np2 nc2, ∃ w ∈ wiresN ne1 np1 nc1, π w = w2) : ne1 = ne2 ∧ np1 = np2 ∧ nc1 = nc2 := by
+  have key : ∀ t : RT, (match t with | .e => ne1 | .p => np1 | .c => nc1) = (match t with | .e => ne2 | .p => np2 | .c => nc2) := by
+    intro t
+    apply typed_count t _ _ π
+    · intro i hi
+      have hm := (mem_wiresN_mk ne1 np1 nc1 t i).2 hi
+      obtain ⟨a, b⟩ := hinto _ hm
+      cases hπ : π ⟨t, i⟩ with | mk t' j =>
+      rw [hπ] at a b
+      simp only at b
+      subst b
+      exact ⟨j, (mem_wiresN_mk ne2 np2 nc2 t' j).1 a, rfl⟩
+    · intro i hi i' hi' h
+      have := hinj _ ((mem_wiresN_mk ne1 np1 nc1 t i).2 hi) _ ((mem_wiresN_mk ne1 np1 nc1 t i').2 hi') h
+      injection this
+    · intro j hj
+      obtain ⟨w, hw, hπ⟩ := hsurj _ ((mem_wiresN_mk ne2 np2 nc2 t j).2 hj)
+      cases w with | mk t' i =>
+      have := (hinto _ hw).2
+      rw [hπ] at this
+      simp only at this
+      subst this
+      exact ⟨i, (mem_wiresN_mk ne1 np1 nc1 _ i).1 hw, hπ⟩
+  exact ⟨key .e, key .p, key .c⟩
+
+/-! ## the circuits -/
+
+/-- `c2` is `c1` with the registers renamed by `π` within each type, register by register -/
+structure RenamedBy (π : Wire → Wire) (c1 c2 : Circuit) : Prop where
+  ne : c1.ne = c2.ne
+  np : c1.np = c2.np
+  nc : c1.nc = c2.nc
+  into : ∀ w ∈ wiresN c1.ne c1.np c1.nc, π w ∈ wiresN c1.ne c1.np c1.nc ∧ (π w).t = w.t
+  inj : ∀ w ∈ wiresN c1.ne c1.np c1.nc, ∀ w' ∈ wiresN c1.ne c1.np c1.nc, π w = π w' → w = w'
+  surj : ∀ w2 ∈ wiresN c1.ne c1.np c1.nc, ∃ w ∈ wiresN c1.ne c1.np c1.nc, π w = w2
+  wires : ∀ w ∈ wiresN c1.ne c1.np c1.nc, c2.ops.filter (touches (π w)) = (c1.ops.filter (touches w)).map (renOp π)
+  len : c1.ops.length = c2.ops.length
+
+/-- **soundness of the repaired `circuit_is_isomorphic`**: a positive answer exhibits a renaming of the registers within
+    each type that turns the operation sequence of every register of the first circuit into the operation sequence of
+    the corresponding register of the second -/
+theorem iso2_sound (c1 c2 : Circuit) (h1 : ∀ o ∈ c1.ops, OpOK (wiresN c1.ne c1.np c1.nc) o)
+    (h2 : ∀ o ∈ c2.ops, OpOK (wiresN c2.ne c2.np c2.nc) o) (h : circuitIsIsomorphic2 c1 c2 = .ok true) :
+    ∃ π, RenamedBy π c1 c2 := by
+  obtain ⟨g1, hb1, i1, _, _, _⟩ := build_rep c1 h1
+  obtain ⟨g2, hb2, i2, _, _, _⟩ := build_rep c2 h2
+  unfold circuitIsIsomorphic2 at h
+  rw [hb1, hb2] at h
+  have hiso : isoGraphs2 g1 g2 = true := by
+    simp only [bind, Except.bind, pure, Except.pure] at h
+    injection h
+  obtain ⟨f, hf⟩ := isoGraphs2_witness g1 g2 hiso
+  obtain ⟨_, hfacts⟩ := isoCheck2_facts _ _ f hf
+  obtain ⟨B1, cr1⟩ := i1.circRep
+  obtain ⟨B2, cr2⟩ := i2.circRep
+  let π := wireMap (mapFn f)
+  have hW := fun w hw => iso2_wires _ _ _ _ B1 B2 cr1.rep cr2.rep (mapFn f) hfacts w hw
+  have hcounts := counts_eq c1.ne c1.np c1.nc c2.ne c2.np c2.nc π
+    (fun w hw => ⟨(hW w hw).1, (hW w hw).2.1⟩)
+    (fun w hw w' hw' => wireMap_inj _ _ _ _ B1 B2 cr1.rep cr2.rep (mapFn f) hfacts w w' hw hw')
+    (fun w2 hw2 => wireMap_surj _ _ _ _ B1 B2 cr1.rep cr2.rep (mapFn f) hfacts w2 hw2)
+  obtain ⟨e1, e2, e3⟩ := hcounts
+  have hWeq : wiresN c2.ne c2.np c2.nc = wiresN c1.ne c1.np c1.nc := by rw [e1, e2, e3]
+  refine ⟨π, ⟨e1, e2, e3, ?_, ?_, ?_, ?_, ?_⟩⟩
+  · intro w hw
+    exact ⟨hWeq ▸ (hW w hw).1, (hW w hw).2.1⟩
+  · exact fun w hw w' hw' => wireMap_inj _ _ _ _ B1 B2 cr1.rep cr2.rep (mapFn f) hfacts w w' hw hw'
+  · intro w2 hw2
+    exact wireMap_surj _ _ _ _ B1 B2 cr1.rep cr2.rep (mapFn f) hfacts w2 (hWeq ▸ hw2)
+  · exact fun w hw => iso2_ops _ _ _ _ _ _ B1 B2 cr1 cr2 (mapFn f) hfacts w hw
+  · have hlen := hfacts.len
+    simp only [List.length_map] at hlen
+    rw [cr1.count, cr2.count, hWeq] at hlen
+    omega
 
 end Graphiq.Compare
